@@ -224,7 +224,7 @@ func run(r *core.Run) {
 		}
 		r.Begin(fmt.Sprintf("formatint-%d", n), true, "stream:structured", "int:format")
 		txt := r.Do(fmt.Sprintf("C19.formatint %d", n))
-		back := r.Do("C19.parseint 64 " + txt)
+		back := r.Do("C19.parseint 64 " + txt[3:])
 		r.Check(back == fmt.Sprintf("ok %d", n), "int-roundtrip", fmt.Sprintf("FormatInt/ParseInt round trip of %d gives %s", n, back))
 	}
 
